@@ -1463,3 +1463,87 @@ func c10r11(rc *core.RC) {
 		}
 	}
 }
+
+// ---- C10.R12 a map context goes back to its pool where the interpreter leaves the map ----
+
+// The MapContext of a map being encoded is loaded again by every operation of that map (OpMapKey reads Idx and Len,
+// OpMapValue the iterator). It may be handed to ReleaseMapContext only where the interpreter does not come back to an
+// operation of the same map: in OpMapEnd, and in the branch of OpMapKey that goes on behind the map
+// (code = code.End.Next). Released earlier, the object is taken by another goroutine's map while this one still reads
+// and writes it. Obligation, for every call of ReleaseMapContext in a clause of the four interpreters: the clause is
+// OpMapEnd, or the next assignment to the instruction pointer behind the call in the same statement list is
+// code.End.Next; and the released variable is not used again in that list.
+func c10r12(rc *core.RC) {
+	p := rc.P
+	t := loadOpTable(rc)
+	if t == nil {
+		return
+	}
+	n := 0
+	for _, vm := range core.VMPkgs {
+		cl, _ := opClauses(rc, vm, t)
+		if cl == nil {
+			continue
+		}
+		info := p.Pkg(vm).TypesInfo
+		var labels []string
+		for k := range cl {
+			labels = append(labels, k)
+		}
+		sort.Strings(labels)
+		for _, label := range labels {
+			cc := cl[label]
+			k := 0
+			var lists [][]ast.Stmt
+			lists = append(lists, cc.Body)
+			ast.Inspect(cc, func(m ast.Node) bool {
+				if b, ok := m.(*ast.BlockStmt); ok {
+					lists = append(lists, b.List)
+				}
+				return true
+			})
+			for _, list := range lists {
+				for i, st := range list {
+					es, ok := st.(*ast.ExprStmt)
+					if !ok {
+						continue
+					}
+					call, ok := es.X.(*ast.CallExpr)
+					if !ok || core.CalleeName(info, call) != "encoder.ReleaseMapContext" || len(call.Args) != 1 {
+						continue
+					}
+					n++
+					k++
+					key := fmt.Sprintf("%s.Run/case %s/release#%d where-the-map-is-left", vm, label, k)
+					obj := core.ObjOf(info, call.Args[0])
+					usedAfter := token.NoPos
+					next := ""
+					for _, later := range list[i+1:] {
+						ast.Inspect(later, func(m ast.Node) bool {
+							if id, isID := m.(*ast.Ident); isID && obj != nil && info.Uses[id] == obj && usedAfter == token.NoPos {
+								usedAfter = id.Pos()
+							}
+							return true
+						})
+						if as, isAs := later.(*ast.AssignStmt); isAs && len(as.Lhs) == 1 && len(as.Rhs) == 1 && next == "" {
+							if id, isID := as.Lhs[0].(*ast.Ident); isID && id.Name == "code" {
+								next = types.ExprString(as.Rhs[0])
+							}
+						}
+					}
+					switch {
+					case usedAfter != token.NoPos:
+						rc.Bad(key, usedAfter, "%s is used after it was handed to ReleaseMapContext: the pool may have given it to another goroutine", types.ExprString(call.Args[0]))
+					case strings.Contains(label, "OpMapEnd") || next == "code.End.Next":
+						rc.OK(key, call.Pos(), "released where the interpreter goes on behind the map (%s)", map[bool]string{true: "OpMapEnd", false: "code = code.End.Next"}[strings.Contains(label, "OpMapEnd")])
+					default:
+						rc.Bad(key, call.Pos(), "the map context is handed to ReleaseMapContext in the clause of %s and the interpreter goes on with code = %s, to operations of the same map that load the context again (OpMapKey reads Idx and Len, and advances the iterator): from the release on the object can be the context of another goroutine's map", label, next)
+					}
+				}
+			}
+		}
+	}
+	if n < 8 {
+		rc.Unknown("encoder-vms/ReleaseMapContext-sites", token.NoPos, "found %d calls of ReleaseMapContext in the interpreters, fewer than the 8 confirmed by hand (OpMapKey and OpMapEnd in each)", n)
+	}
+}
